@@ -114,6 +114,17 @@ theorem exec_shape (g : Byte) (v : Nat) (p0 : Int) :
       · rw [if_neg hc, if_neg hc]
         have := ih { s with nd := (s.nd + 1) % 256 } j d hos hv hp
         simpa using this
+    | group dec =>
+      simp only [exec, Op.step, shape, applyW, Item.byte]
+      rw [hp]
+      rcases store_same s.mem (p0 - (d : Int)) g "convert: *buffer = group_char" "w" with
+        ⟨m, h1, h2⟩ | ⟨x, y, h1, h2⟩
+      · rw [h1, h2]
+        simp only
+        have := ih { s with mem := m, pos := if dec = true then p0 - (d : Int) - 1 else p0 - (d : Int) }
+          j (if dec = true then d + 1 else d) hos hv (by cases dec <;> simp <;> omega)
+        simpa using this
+      · rw [h1, h2]; simp [memOf, Res.same]
 
 /-! ### consecutive descending writes -/
 
